@@ -131,16 +131,13 @@ var lvPackages = []string{"", "foo", "foo.v1", "foo.v1beta1", "foo.v2alpha", "fo
 
 func lvPackageUnstable(i int) bool { return i >= 3 }
 
-// VerifLemma_C06B_IgnoreFileLocation: path-based suppression. For every file path, one or two global ignore roots,
-// an optional per-rule root for rule R1, rule R1/R2, import / exclude-imports / ignore-unstable flags and package:
-//   ignored  <=>  (excludeImports && isImport) || some global root contains the path
+// VerifLemma_C06B_IgnoreFileLocation: path-based suppression. For every file path, a global ignore root, an optional
+// per-rule root for rule R1, rule R1/R2, import / exclude-imports / ignore-unstable flags and package:
+//   ignored  <=>  (excludeImports && isImport) || the global root contains the path
 //                 || (the rule has a root containing the path) || (ignoreUnstable && package is versioned-unstable)
-// and adding a global root is monotone: it never turns ignored into reported, and it changes nothing for a path it
-// does not contain.
 func VerifLemma_C06B_IgnoreFileLocation() {
 	path := lvNondetRelPath(verifParam("PN"))
 	g1 := lvNondetRelPath(verifParam("RN"))
-	g2 := lvNondetRelPath(verifParam("RN"))
 	hasRuleRoot := verifNondetBool()
 	perRule := map[string]map[string]struct{}{}
 	pr := ""
@@ -159,31 +156,58 @@ func VerifLemma_C06B_IgnoreFileLocation() {
 	}
 	opts := &optionsConfig{ExcludeImports: excludeImports, IgnoreUnstablePackages: ignoreUnstable}
 	loc := &lvFileLocation{fd: &lvFileDesc{isImport: isImport, pfd: &lvPFD{path: path, pkg: lvPackages[pkgIdx], locs: &lvSrcLocs{}}}}
-
-	cfgA := lvConfig(map[string]struct{}{g1: {}}, perRule, opts)
-	cfgB := lvConfig(map[string]struct{}{g1: {}, g2: {}}, perRule, opts)
-	gotA, errA := ignoreFileLocation(cfgA, ruleID, loc)
-	gotB, errB := ignoreFileLocation(cfgB, ruleID, loc)
+	cfg := lvConfig(map[string]struct{}{g1: {}}, perRule, opts)
+	got, err := ignoreFileLocation(cfg, ruleID, loc)
 	verifCover("returned")
-	verifAssert(errA == nil && errB == nil, "no error without comment ignores")
-
-	base := (excludeImports && isImport) ||
+	verifAssert(err == nil, "no error without comment ignores")
+	ref := (excludeImports && isImport) ||
+		lvRefContains(g1, path) ||
 		(hasRuleRoot && ruleID == "R1" && lvRefContains(pr, path)) ||
 		(ignoreUnstable && lvPackageUnstable(pkgIdx))
-	refA := base || lvRefContains(g1, path)
-	refB := refA || lvRefContains(g2, path)
-	if refA {
+	if ref {
 		verifCover("ignored")
 	} else {
 		verifCover("reported")
 	}
-	verifAssert(gotA == refA, "ignored iff import-excluded, under a global root, under the rule's root, or unstable package")
-	verifAssert(gotB == refB, "same with a second global root")
+	verifAssert(got == ref, "ignored iff import-excluded, under a global root, under the rule's root, or unstable package")
+	verifAssert(loc.fd.pfd.locs.lookups == 0, "comments are not consulted when comment ignores are off")
+}
+
+// VerifLemma_C06B_IgnoreRootMonotone: adding an ignore root (global, or to the rule's own roots) never turns an
+// ignored location into a reported one and changes nothing for a path the new root does not contain; with two
+// roots the verdict is the disjunction of the single-root verdicts.
+func VerifLemma_C06B_IgnoreRootMonotone() {
+	path := lvNondetRelPath(verifParam("PN"))
+	g1 := lvNondetRelPath(verifParam("RN"))
+	g2 := lvNondetRelPath(verifParam("RN"))
+	perRuleSide := verifNondetBool() // the roots are the rule's roots instead of global ones
+	loc := &lvFileLocation{fd: &lvFileDesc{pfd: &lvPFD{path: path, locs: &lvSrcLocs{}}}}
+	var cfgA, cfgB *config
+	if perRuleSide {
+		cfgA = lvConfig(map[string]struct{}{}, map[string]map[string]struct{}{"R1": {g1: {}}}, &optionsConfig{})
+		cfgB = lvConfig(map[string]struct{}{}, map[string]map[string]struct{}{"R1": {g1: {}, g2: {}}}, &optionsConfig{})
+	} else {
+		cfgA = lvConfig(map[string]struct{}{g1: {}}, map[string]map[string]struct{}{}, &optionsConfig{})
+		cfgB = lvConfig(map[string]struct{}{g1: {}, g2: {}}, map[string]map[string]struct{}{}, &optionsConfig{})
+	}
+	gotA, errA := ignoreFileLocation(cfgA, "R1", loc)
+	gotB, errB := ignoreFileLocation(cfgB, "R1", loc)
+	other, errO := ignoreFileLocation(cfgB, "R2", loc)
+	verifCover("returned")
+	verifAssert(errA == nil && errB == nil && errO == nil, "no error")
+	verifAssert(gotA == lvRefContains(g1, path), "one root: ignored iff the root contains the path")
+	verifAssert(gotB == (lvRefContains(g1, path) || lvRefContains(g2, path)), "two roots: ignored iff one of them contains the path")
 	verifAssert(!gotA || gotB, "adding an ignore root never un-ignores")
 	if !lvRefContains(g2, path) {
 		verifAssert(gotA == gotB, "adding a root does not change the verdict of a path it does not contain")
+	} else {
+		verifCover("second root contains the path")
 	}
-	verifAssert(loc.fd.pfd.locs.lookups == 0, "comments are not consulted when comment ignores are off")
+	if perRuleSide {
+		verifAssert(!other, "a rule's ignore roots do not suppress another rule")
+	} else {
+		verifAssert(other == gotB, "global roots suppress every rule alike")
+	}
 }
 
 // ---- comment ignores ----
@@ -352,5 +376,229 @@ func VerifLemma_C06D_FilterAnnotations() {
 	}
 	for i := range out {
 		verifAssert(out[i].Annotation.(*lvAnnotation).tag == wantTags[i], "kept annotations are the expected ones, in input order")
+	}
+}
+
+// ---- C06-A: selection algebra of newRulesConfig ----
+
+type (
+	lvICheckRule     = check.Rule
+	lvICheckCategory = check.Category
+)
+
+type lvCategory struct {
+	lvICheckCategory
+	id         string
+	deprecated bool
+	repl       []string
+}
+
+func (c *lvCategory) ID() string               { return c.id }
+func (c *lvCategory) Deprecated() bool         { return c.deprecated }
+func (c *lvCategory) ReplacementIDs() []string { return c.repl }
+
+type lvRule struct {
+	lvICheckRule
+	id         string
+	cats       []check.Category
+	isDefault  bool
+	deprecated bool
+	repl       []string
+}
+
+func (r *lvRule) ID() string                   { return r.id }
+func (r *lvRule) Categories() []check.Category { return r.cats }
+func (r *lvRule) Default() bool                { return r.isDefault }
+func (r *lvRule) Type() check.RuleType         { return check.RuleTypeLint }
+func (r *lvRule) Deprecated() bool             { return r.deprecated }
+func (r *lvRule) ReplacementIDs() []string     { return r.repl }
+
+// The universe: live rules R0 R1 R2 (result order), deprecated rule R3 -> {R0, R2}; categories CA = {R0, R1},
+// CB = {R1, R2, R3}, deprecated category CD -> CA with CD = {R2}. Defaults: R0, R1. All IDs are 2 bytes.
+var (
+	lvLive      = []string{"R0", "R1", "R2"}
+	lvRuleCats  = map[string][]string{"R0": {"CA"}, "R1": {"CA", "CB"}, "R2": {"CB", "CD"}, "R3": {"CB"}}
+	lvAllIDs    = []string{"R0", "R1", "R2", "R3", "CA", "CB", "CD"}
+	lvR3Replace = []string{"R0", "R2"}
+)
+
+func lvUniverse() ([]Rule, []Category) {
+	ca := &lvCategory{id: "CA"}
+	cb := &lvCategory{id: "CB"}
+	cd := &lvCategory{id: "CD", deprecated: true, repl: []string{"CA"}}
+	rules := []Rule{
+		newRule(&lvRule{id: "R0", cats: []check.Category{ca}, isDefault: true}, ""),
+		newRule(&lvRule{id: "R1", cats: []check.Category{ca, cb}, isDefault: true}, ""),
+		newRule(&lvRule{id: "R2", cats: []check.Category{cb, cd}}, ""),
+		newRule(&lvRule{id: "R3", cats: []check.Category{cb}, deprecated: true, repl: lvR3Replace}, ""),
+	}
+	return rules, []Category{newCategory(ca, ""), newCategory(cb, ""), newCategory(cd, "")}
+}
+
+// lvNondetID: "" or any 2-byte ASCII string (so: an ID of the universe, an unknown ID, or blank).
+func lvNondetID() string {
+	if verifNondetBool() {
+		return ""
+	}
+	s := verifNondetStringN(2)
+	verifAssume(s[0] < 0x80 && s[1] < 0x80)
+	return s
+}
+
+func lvIsBlank(s string) bool {
+	for i := 0; i < len(s); i++ {
+		c := s[i]
+		if !(c == ' ' || (c >= 9 && c <= 13)) {
+			return false
+		}
+	}
+	return true
+}
+
+func lvKnownID(s string) bool {
+	for _, id := range lvAllIDs {
+		if s == id {
+			return true
+		}
+	}
+	return false
+}
+
+// lvDirect: id names rule r directly or through one of r's categories (before deprecation replacement).
+func lvDirect(id, r string) bool {
+	if id == r {
+		return true
+	}
+	for _, c := range lvRuleCats[r] {
+		if id == c {
+			return true
+		}
+	}
+	return false
+}
+
+// lvCovers: after expansion and replacement of deprecated rules, id selects live rule r.
+func lvCovers(id, r string) bool {
+	if lvDirect(id, r) {
+		return true
+	}
+	if lvDirect(id, "R3") {
+		for _, rep := range lvR3Replace {
+			if rep == r {
+				return true
+			}
+		}
+	}
+	return false
+}
+
+// VerifLemma_C06A_Selection: newRulesConfig over the stub universe with use / except lists and one ignore_only key
+// made of *symbolic* IDs: an unknown non-blank ID anywhere => error; otherwise
+//   RuleIDs = sorted { r live : (some use ID, or the defaults when use is blank, covers r) and no except ID covers r }
+// (empty => error), independent of list order and of blank entries; the ignore_only paths of a key land on exactly
+// the live rules it covers.
+func VerifLemma_C06A_Selection() {
+	nUse := verifNondetChoice(verifParam("USE") + 1)
+	nExc := verifNondetChoice(verifParam("EXCEPT") + 1)
+	var use, except []string
+	for i := 0; i < nUse; i++ {
+		use = append(use, lvNondetID())
+	}
+	for i := 0; i < nExc; i++ {
+		except = append(except, lvNondetID())
+	}
+	ignoreOnly := map[string][]string{}
+	ignKey, hasIgn := "", false
+	if verifParam("IGNORE") > 0 && verifNondetBool() {
+		hasIgn = true
+		ignKey = lvNondetID()
+		ignoreOnly[ignKey] = []string{"dir"}
+	}
+	rules, cats := lvUniverse()
+	cfg, err := newRulesConfig(use, except, nil, ignoreOnly, rules, cats, check.RuleTypeLint, nil)
+	verifCover("configured")
+
+	// reference
+	unknown := false
+	useBlank := true
+	for _, id := range use {
+		if !lvIsBlank(id) {
+			useBlank = false
+			if !lvKnownID(id) {
+				unknown = true
+			}
+		}
+	}
+	for _, id := range except {
+		if !lvIsBlank(id) && !lvKnownID(id) {
+			unknown = true
+		}
+	}
+	// an ignore_only key is only skipped when it is the empty string (it is not trimmed)
+	if hasIgn && ignKey != "" && !lvKnownID(ignKey) {
+		unknown = true
+	}
+	if unknown {
+		verifCover("unknown id")
+		verifAssert(err != nil, "an unknown rule or category ID is rejected")
+		return
+	}
+	var want []string
+	for _, r := range lvLive {
+		sel := false
+		if useBlank {
+			sel = r == "R0" || r == "R1"
+		}
+		for _, id := range use {
+			if !lvIsBlank(id) && lvCovers(id, r) {
+				sel = true
+			}
+		}
+		for _, id := range except {
+			if !lvIsBlank(id) && lvCovers(id, r) {
+				sel = false
+			}
+		}
+		if sel {
+			want = append(want, r)
+		}
+	}
+	if len(want) == 0 {
+		verifCover("empty selection")
+		verifAssert(err != nil, "an empty selection is an error")
+		return
+	}
+	verifCover("selected")
+	verifAssert(err == nil, "known IDs and a non-empty selection are accepted")
+	if err != nil {
+		return
+	}
+	verifAssert(len(cfg.RuleIDs) == len(want), "RuleIDs = expand(use or defaults) minus expand(except), nothing twice")
+	if len(cfg.RuleIDs) != len(want) {
+		return
+	}
+	for i := range want {
+		verifAssert(cfg.RuleIDs[i] == want[i], "RuleIDs sorted, deprecated IDs replaced")
+	}
+	if hasIgn {
+		for _, r := range lvLive {
+			_, got := cfg.IgnoreRuleIDToRootPaths[r]["dir"]
+			verifAssert(got == (ignKey != "" && lvCovers(ignKey, r)), "ignore_only key expands to exactly the live rules it covers")
+		}
+		_, dep := cfg.IgnoreRuleIDToRootPaths["R3"]
+		verifAssert(!dep, "no ignore_only entry is left under a deprecated rule ID")
+	}
+	// order independence: reversed lists give the same selection
+	if len(use) > 1 || len(except) > 1 {
+		ru := make([]string, len(use))
+		for i := range use {
+			ru[len(use)-1-i] = use[i]
+		}
+		re := make([]string, len(except))
+		for i := range except {
+			re[len(except)-1-i] = except[i]
+		}
+		cfg2, err2 := newRulesConfig(ru, re, nil, ignoreOnly, rules, cats, check.RuleTypeLint, nil)
+		verifAssert(err2 == nil && len(cfg2.RuleIDs) == len(want), "selection independent of list order")
 	}
 }
